@@ -113,6 +113,18 @@ def _corrupt_pages(events, rng):
     return i
 
 
+def _corrupt_read(events, rng):
+    """change one hex digit of the bytes a successful Read returned (an observation, unlike Write.data)"""
+    cands = [i for i, e in enumerate(events) if e.get("ev") == "Read" and e.get("ok") and e.get("data")]
+    if not cands:
+        return None
+    i = rng.choice(cands)
+    d = events[i]["data"]
+    k = rng.randrange(len(d))
+    events[i]["data"] = d[:k] + ("1" if d[k] != "1" else "2") + d[k + 1:]
+    return i
+
+
 def _corrupt_bound(events, rng):
     cands = [i for i, e in enumerate(events) if e.get("ev") in ("GrowStack", "GrowHeap", "Rollback") and "st" in e]
     if not cands:
@@ -211,7 +223,7 @@ def run(pid, tier):
                 k += 1
             tests = [("Verify.ok", tc.flip_bool_field("Verify", "ok")), ("Dump.pages", _corrupt_pages)]
             if thorough:
-                tests += [("Read.data", tc.corrupt_hex_field(["data"])), ("bounds", _corrupt_bound),
+                tests += [("Read.data", _corrupt_read), ("bounds", _corrupt_bound),
                           ("Eq.eq", tc.flip_bool_field("Eq", "eq")), ("Copy.ok", tc.flip_bool_field("Copy", "ok"))]
             for name, mut in tests:
                 tc.selftest_corrupt(chk, "mem", SPEC_TR, good, mut)
